@@ -19,3 +19,8 @@ fn('dsplib::zeropad', 'lib/resample/resample.cpp', serves=['C17', 'C03', 'C05'],
    ensures=[('length', 'result.len == n'),
             ('head', 'forall(lambda k: Implies(And(0 <= k, k < x.len), result[k] == x[k]))'),
             ('zeros', 'forall(lambda k: Implies(And(x.len <= k, k < n), eqv(result[k], 0)))')])
+
+fn('dsplib::conj', M, sig='dsplib::real_t (dsplib::real_t)', key='conj(real)', serves=['C17'], pure=True,
+   ensures=[('identity', 'result == x')])
+fn('dsplib::conj', M, sig='dsplib::cmplx_t (dsplib::cmplx_t)', key='conj(cmplx)', serves=['C17'], pure=True,
+   ensures=[('conjugate', 'And(result.re == x.re, result.im == -x.im)')])
